@@ -147,7 +147,7 @@ func claimKey(o *Obligation) string {
 
 // missingIsViolation: a claimed key for which no obligation is generated any more.
 func missingIsViolation(key string) bool {
-	for _, k := range []string{":safe", ":pre[", ":spawn[", ":guard[", ":chan[", ":crash["} {
+	for _, k := range []string{":safe", ":pre[", ":spawn[", ":guard[", ":chan[", ":crash[", ":frame[", ":vacuity["} {
 		if strings.Contains(key, k) {
 			return false // the function, call site or access was removed: nothing left that could violate the clause
 		}
@@ -181,6 +181,8 @@ func main() {
 	switch os.Args[1] {
 	case "check":
 		os.Exit(cmdCheck(os.Args[2:]))
+	case "rename-locals":
+		os.Exit(cmdRenameLocals(os.Args[2:]))
 	default:
 		fmt.Fprintln(os.Stderr, "unknown command", os.Args[1])
 		os.Exit(2)
@@ -226,6 +228,10 @@ func cmdCheck(args []string) int {
 	}
 	loadS := time.Since(start).Seconds()
 
+	localsPath := filepath.Join(*verif, "baseline", *prop+".locals")
+	if !*writeBaseline {
+		prog.readLocalTables(localsPath)
+	}
 	// functions to verify
 	var targets []*ssa.Function
 	seen := map[string]bool{}
@@ -513,6 +519,7 @@ func cmdCheck(args []string) int {
 		sort.Strings(lines)
 		os.MkdirAll(filepath.Dir(baselinePath), 0o755)
 		os.WriteFile(baselinePath, []byte(strings.Join(lines, "\n")+"\n"), 0o644)
+		prog.writeLocalTables(localsPath)
 		fmt.Printf("baseline written: %d obligations\n", len(lines))
 		for _, l := range lines {
 			baseline[l] = true
@@ -541,7 +548,7 @@ func cmdCheck(args []string) int {
 			}
 			continue
 		}
-		if !claimed && (o.Kind == "pre" || o.Kind == "spawn" || o.Kind == "guard" || o.Kind == "crash") && o.Status != "discharged" && !noclaim(o.Name) && len(baseline) > 0 {
+		if !claimed && (o.Kind == "pre" || o.Kind == "spawn" || o.Kind == "guard" || o.Kind == "crash" || o.Kind == "vacuity") && o.Status != "discharged" && !noclaim(o.Name) && len(baseline) > 0 {
 			// a call site, spawn or guarded access that is new relative to the baseline and violates the callee's
 			// precondition / the lock discipline: claimed implicitly (otherwise a new bad call site would go unnoticed)
 			claimed = true
@@ -570,6 +577,7 @@ func cmdCheck(args []string) int {
 		report(o, why, replayed)
 	}
 	// baseline obligations that no longer exist
+	loopGone := map[string]bool{}
 	if *only == "" {
 		var bl []string
 		for n := range baseline {
@@ -584,8 +592,30 @@ func cmdCheck(args []string) int {
 				if !missingIsViolation(n) {
 					continue
 				}
+				if i := strings.Index(n, ":"); i > 0 && (strings.Contains(n, ":inv_entry[") || strings.Contains(n, ":inv_step[")) {
+					// a loop that was removed or folded into a call: its invariants were proof steps towards the function's
+					// postconditions; as long as claimed postconditions of that function are still generated (and have to
+					// discharge without the loop) nothing that carries the property has gone missing
+					carried := false
+					for bn := range baseline {
+						if strings.HasPrefix(bn, n[:i]+":ensures[") {
+							if _, ok := byName[bn]; ok {
+								carried = true
+							}
+						}
+					}
+					if carried {
+						loopGone[n[:i]] = true
+						continue
+					}
+				}
 				total++
 				o := &Obligation{Name: n, Status: "missing", Detail: "contract target missing: the function, loop or call site this obligation is attached to no longer exists"}
+				for _, r := range reports {
+					if r.OutOfReach != "" && strings.HasPrefix(n, shortFuncName(r.Key)+":") {
+						o.Detail = "contract target missing: the contract of " + shortFuncName(r.Key) + " no longer fits the code: " + r.OutOfReach
+					}
+				}
 				report(o, o.Detail, false)
 			}
 		}
@@ -632,6 +662,12 @@ func cmdCheck(args []string) int {
 				fmt.Printf("note: %s out of reach: %s\n", shortFuncName(r.Key), r.OutOfReach)
 			}
 		}
+	}
+	for fnName := range loopGone {
+		fmt.Printf("note: a loop under contract in %s no longer exists; its invariants are skipped, the function's postconditions still have to discharge\n", fnName)
+	}
+	for _, rn := range prog.Renames {
+		fmt.Printf("note: renamed local followed by position: %s\n", rn)
 	}
 	wall := time.Since(start).Seconds()
 	if *verbose {
@@ -749,6 +785,10 @@ func writeEvidence(path string, ps *PropSpec, tier string, seed int, obs []*Obli
 		"pointer parameters and receivers are non-nil (A-nonnil); calls without a contract are replaced by havoc of their computed write set",
 		"external (non-module) callees do not mutate module objects reachable only through interface-typed arguments (A-ext-readonly)",
 	}, ps.Assume...)
+	assumptions = append(assumptions, "contracts name local variables of the functions they annotate; a local that was renamed since the baseline is followed by its position and type in the function's table of local cells (baseline/<id>.locals)")
+	for _, rn := range prog.Renames {
+		assumptions = append(assumptions, "renamed local followed by position: "+rn)
+	}
 	ev := map[string]interface{}{
 		"property_id": ps.ID,
 		"tier":        tier,
